@@ -1,4 +1,4 @@
 INIT TInit
 NEXT TNext
-POSTCONDITION Accepted
+POSTCONDITION Consumed
 CHECK_DEADLOCK FALSE
